@@ -186,7 +186,17 @@ func c17Oracle(in string) eng.Res {
 	}
 	d, g, err := layout(engine, src)
 	if err != nil {
-		return eng.Bad("layout-error:"+engine+":"+errClass(err)+scriptTrigger(err, g0), err.Error())
+		if byDesignLayoutError(err) {
+			return eng.OK("rejected-by-sequence-diagram-validation", false)
+		}
+		cls := errClass(err)
+		if trig := scriptTrigger(err, g0); trig != "" && trig != ":no-template-metacharacter-in-connection-ids" {
+			// which JS error type results depends on the neighbouring characters; the mechanism is the metacharacter
+			cls = "generated script broken" + trig
+		} else {
+			cls += trig
+		}
+		return eng.Bad("layout-error:"+engine+":"+cls, err.Error())
 	}
 	if d == nil || g == nil {
 		return eng.Bad("nil-result:"+engine, "d2lib.Compile returned nil diagram or graph without error")
@@ -263,6 +273,7 @@ func init() {
 			"names the d2ast.RawString key encoder does not reproduce exactly are skipped (quoting is C05/C06)",
 			"ELK is run on smaller sub-spaces than dagre (0.5 s per diagram); see phases",
 			"render = d2svg.RenderMultiboard with default options returns without error and non-empty",
+			"sequence diagrams that d2sequence rejects on purpose (no actors declared / could not find center of X / actor is itself a sequence diagram: expected errors of e2etests/regression_test.go) count as not compilable",
 		},
 		Oracles: map[string]eng.Oracle{"layout": c17Oracle, "name": c17NameOracle},
 		Run: func(w *eng.W) {
@@ -302,8 +313,8 @@ func init() {
 				chunked(w, "FLcore=2:dagre", 6, func(emit func(string, string)) {
 					forPrograms("", core, 2, func(src string) { emit("layout", mkIn("dagre", src)) })
 				})
-				chunked(w, "FLsmall=2:elk", 6, func(emit func(string, string)) {
-					forPrograms("", small, 2, func(src string) { emit("layout", mkIn("elk", src)) })
+				chunked(w, "FLsmall[:20]=2:elk", 6, func(emit func(string, string)) {
+					forPrograms("", small[:20], 2, func(src string) { emit("layout", mkIn("elk", src)) })
 				})
 			} else {
 				chunked(w, "FLfull=2:dagre", 16, func(emit func(string, string)) {
